@@ -99,6 +99,20 @@ fn exec_tab(toks: &[&str]) -> Result<String, String> {
     let open = eq + rest[eq..].find('[').ok_or("no [")?;
     let close = open + rest[open..].find("];").ok_or("no ];")?;
     let body = &rest[open + 1..close];
+    // block comments `/* … */` inside the literal (line comments are cut below)
+    let mut cleaned = String::new();
+    let mut r = body;
+    while let Some(i) = r.find("/*") {
+        cleaned.push_str(&r[..i]);
+        match r[i..].find("*/") {
+            Some(j) => r = &r[i + j + 2..],
+            None => {
+                r = "";
+            }
+        }
+    }
+    cleaned.push_str(r);
+    let body = cleaned.as_str();
     let mut vals: Vec<u64> = vec![];
     for line in body.lines() {
         let line = match line.find("//") {
